@@ -1111,8 +1111,17 @@ class Verifier(InspectMixin, QuantMixin, LoopMixin, ExprMixin, CallMixin, StmtMi
         if name.startswith('oracle.'):
             _, cname, mname = name.split('.', 2)
             spec = self.oracle_methods[cname][mname]
-            at = self.mk_tuple(list(args))
-            kd = self.mk_dict([(smt.mk_str(k), v) for k, v in kwargs.items()])
+            if star is not None:
+                at = self.alloc(builtin_class('tuple'))
+                self.set_seq(at, z3.Concat(self.seq_of_items(list(args)), self.get_seq(star)) if args else self.get_seq(star))
+            else:
+                at = self.mk_tuple(list(args))
+            if dstar is not None:
+                kd = self.dict_copy(dstar)
+                for k, v in kwargs.items():
+                    self.dict_set(kd, smt.mk_str(k), v)
+            else:
+                kd = self.mk_dict([(smt.mk_str(k), v) for k, v in kwargs.items()])
             return self.oracle_outcome(spec, f'call:{mname}', recv, at, kd)
         return NotImplemented
 
